@@ -35,7 +35,7 @@ def one(diff, props):
         shutil.copy(os.path.join(VERIF, "KNOWN_FINDINGS.txt"), vd)
         fired, det = [], []
         for pid in props:
-            rc, o = run([os.path.join(VERIF, "bin", "corscheck"), "-repo", repo, "-verif", vd, "-property", pid])
+            rc, o = run([os.environ.get("CORSCHECK_BIN", os.path.join(VERIF, "bin", "corscheck")), "-repo", repo, "-verif", vd, "-property", pid])
             if rc != 0:
                 fired.append(pid)
                 ls = o.splitlines()
